@@ -299,6 +299,14 @@ def build(clean: bool = False, timeout: int = 3000):
             log.append(r.stdout + r.stderr)
             if r.returncode != 0:
                 return False, 'extract_facts failed (fail closed):\n' + '\n'.join(log)
+        tr = VERIF / 'tools' / 'translate_identify.py'
+        if tr.exists():
+            r = subprocess.run([sys.executable, str(tr), str(REPO), str(THEORIES)], capture_output=True, text=True)
+            log.append('translate_identify: exit %d %s' % (r.returncode, (r.stdout + r.stderr)[-600:]))
+            for f in ('IdentifyGenConf', 'IdentifyGenIM', 'IdentifyGenMB'):
+                if not (THEORIES / f'{f}.v').exists():     # failed closed: a stub that does not compile, so that only its dependents break
+                    (THEORIES / f'{f}.v').write_text('(* the translator failed closed on this part of identify_utils.py *) '
+                                                     'Definition translator_failed_closed : True := 0.\n')
         if clean:
             subprocess.run(['make', '-C', str(COQ), 'clean'], capture_output=True, text=True)
         if not (COQ / 'Makefile').exists() or (COQ / '_CoqProject').stat().st_mtime > (COQ / 'Makefile').stat().st_mtime:
